@@ -29,8 +29,12 @@ package fclient
 //@   loop 1: invariant 0 <= i && i <= len(text) && (forall j int :: 0 <= j && j < i ==> qdtextByte(text[j]))
 //@   assigns nothing
 
+// the Authorization header parser: never panics on any header; a header of another scheme yields nothing
 //@ func ParseAuthorization
-//@   trusted
+//@   property C13, C18:safety
+//@   ensures scheme-is-the-first-word: scheme == ((indexByte(header, 32) >= 0) ? substr(header, 0, indexByte(header, 32)) : header)
+//@   ensures other-schemes-carry-nothing: scheme != "X-Matrix" ==> (origin == "" && destination == "" && key == "" && sig == "")
+//@   ensures no-parameters-no-values: indexByte(header, 32) < 0 ==> (origin == "" && destination == "" && key == "" && sig == "")
 //@   assigns nothing
 
 //@ func VerifyHTTPRequest
